@@ -290,6 +290,12 @@ impl TransportVisitor for V {
                         if buf != want {
                             viol("read-data", format!("read_blocks({:#x}, {}) returned data differing from the disk contents", sector, n));
                         }
+                    } else if buf.iter().any(|b| *b != 0xEE) {
+                        // A failed read: the reference device filled the data part with 0xEE before
+                        // it set the status. What is in the caller's buffer afterwards is what the
+                        // device supplied, not something the driver made up.
+                        let at = buf.iter().position(|b| *b != 0xEE).unwrap();
+                        viol("read-data", format!("read_blocks({:#x}, {}) failed with status {:#x}; the device had written 0xee over the whole data part, the caller's buffer holds {:#x} at byte {}", sector, n, st, buf[at], at));
                     }
                     self.check_last(&bd, seen_before, 0, sector, 512 * n);
                 }
